@@ -8,6 +8,33 @@
   values", "read-only arrays are accepted" and "a repeated call is identical" are statements
   about Python objects with no counterpart in a pure model; they are decided by the
   `entry_points` instance check of harness/props/c19.py only.
+
+  Clause by clause (review B, item 8):
+  1. "(n,), (n,1), (n,1,…) give identical results" — THEOREM for the normalised SHAPE
+     (`ensure1d_accepts_iff`, `ensure1d_layout_insensitive`, `ensureVector_accepts_iff`,
+     `ensure_preserves_size`); INSTANCE-ONLY for the identity of the VALUES the entry points return.
+  2. "multi-column input to a single-signal routine is rejected" — THEOREM for the two validating
+     normalisers (`ensure1d_rejects_iff`, `ensureVector_rejects_iff`); WHICH entry point applies WHICH
+     normaliser to which argument is not modelled: the accept / reject verdict per public entry point is
+     INSTANCE-ONLY (stream `entry_points`).  As read from the code (validated by that stream, not proved):
+       ensure_1d_with_singleton: get_next_imf, sift, ensemble_sift, complete_ensemble_sift,
+                                 get_next_imf_mask, mask_sift (X); get_cycle_vector_from_waveform (imf);
+                                 bin_by_phase (weights)
+       ensure_vector:            get_cycle_stat (values), phase_align (ip, x), bin_by_phase (ip),
+                                 get_control_points (x), phase_from_control_points (cycles), Cycles (IP),
+                                 every label vector passed as `cycles` (_ensure_cycle_inputs)
+       ensure_2d only (rejects nothing, `ensure2d_spec`): frequency_transform, is_imf, normalised_waveform,
+                                 sift_second_layer / mask_sift_second_layer (IA), hilberthuang, holospectrum,
+                                 get_cycle_vector (phase, mask) — for these the rank is decided by downstream
+                                 numpy errors, not by a theorem
+       no normaliser at all:     interp_envelope, get_padded_extrema, compute_parabolic_extrema, emd.utils.*
+       ensure_equal_dims:        hilberthuang and phase_align (dim=None: the prefix test below), holospectrum
+                                 (dim=0 and dim=1), get_cycle_vector with a mask and bin_by_phase (dim=0)
+  3. "mismatched array lengths are rejected" — THEOREM for the routine (`ensureEqualDims_axis_iff`,
+     `ensureEqualDims_iff`, `ensureAll_iff`), with the caveat proved in `ensureEqualDims_is_prefix_test` /
+     `ensureEqualDims_not_symmetric`: with `dim=None` the test is a prefix test relative to the FIRST array.
+  4. "no routine modifies the arrays or option dictionaries", "read-only arrays accepted", "a repeated
+     deterministic call is identical" — INSTANCE-ONLY (byte-level before/after comparison; DESIGN §12.4).
 -/
 import Proofs.Lemmas.Support
 import Proofs.Lemmas.ComposeShapes
@@ -247,6 +274,60 @@ theorem ensureEqualDims_iff (s0 : Shape) (rest : List Shape) :
     exact this
   · intro hall s hs
     rw [hall s hs]; exact ⟨Nat.le_refl _, List.take_length⟩
+
+/-- Two arrays, `dim=None`: the complete case analysis.  The second shape is only looked at along the
+    axes of the FIRST one: too few axes → IndexError (from `np.array(x.shape)[dim]`), enough axes but a
+    different leading part → ValueError, otherwise accepted — whatever further axes it has. -/
+theorem ensureEqualDims_pair (a b : Shape) :
+    ensureEqualDims [a, b] none =
+      if b.length < a.length then .error .indexError
+      else if b.take a.length = a then .ok () else .error .valueError := by
+  have ha : pick a (List.range a.length) = .ok a := by rw [pick_range]; simp
+  simp only [ensureEqualDims, dimsOf, ha, pickAll, pick_range]
+  by_cases h : b.length < a.length
+  · have : ¬ a.length ≤ b.length := by omega
+    simp [this, h]
+  · have h' : a.length ≤ b.length := by omega
+    simp only [h', ite_true, h, ite_false]
+    by_cases he : b.take a.length = a
+    · simp [he]
+    · have : (List.take a.length b == a) = false := by simpa using he
+      simp [he, this]
+
+/-- `ensure_equal_dims(dim=None)` is a PREFIX test relative to the first array, not an equality test:
+    `[a, b]` is accepted exactly when `a` is a prefix of `b`. -/
+theorem ensureEqualDims_is_prefix_test (a b : Shape) :
+    ensureEqualDims [a, b] none = .ok () ↔ a <+: b := by
+  rw [ensureEqualDims_pair]
+  constructor
+  · intro h
+    by_cases h1 : b.length < a.length
+    · simp [h1] at h
+    · by_cases h2 : b.take a.length = a
+      · rw [← h2]; exact List.take_prefix _ _
+      · simp [h1, h2] at h
+  · rintro ⟨t, rfl⟩
+    simp
+
+/-- … and therefore ASYMMETRIC: whenever the accepted pair is not a pair of equal shapes, the same two
+    arrays in the other order are rejected (IndexError: the shorter shape lacks an axis of the first).
+    "Mismatched array lengths are rejected" is thus guaranteed only along the axes of the first array. -/
+theorem ensureEqualDims_not_symmetric (a b : Shape) (h : ensureEqualDims [a, b] none = .ok ()) (hne : a ≠ b) :
+    ensureEqualDims [b, a] none = .error .indexError := by
+  obtain ⟨t, rfl⟩ := (ensureEqualDims_is_prefix_test a b).1 h
+  have ht : t ≠ [] := by intro e; subst e; simp at hne
+  have hl : 0 < t.length := List.length_pos_iff.mpr ht
+  rw [ensureEqualDims_pair]
+  simp only [List.length_append]
+  rw [if_pos (by omega)]
+
+/-- the witness checked against the real code (c19.py, stream equal_dims): (7,2) then (7,2,3) is accepted,
+    (7,2,3) then (7,2) raises IndexError; (7,2) then (6,2,3) raises ValueError in both orders' first test -/
+theorem ensureEqualDims_swap_witness :
+    ensureEqualDims [[7, 2], [7, 2, 3]] none = .ok () ∧
+    ensureEqualDims [[7, 2, 3], [7, 2]] none = .error .indexError ∧
+    ensureEqualDims [[7, 2], [6, 2, 3]] none = .error .valueError ∧
+    ensureEqualDims [[6, 2, 3], [7, 2]] none = .error .indexError := ⟨rfl, rfl, rfl, rfl⟩
 
 /-- Calls with several arrays (`ensure_1d_with_singleton([a, b], …)`): accepted exactly when
     every array is, with the normalised shapes returned in order; rejected as soon as one array
